@@ -207,7 +207,7 @@ def replay_path(matcher, case, tol=1e-8, check_prob=True, trace=None):
             if not base.close(r["lp"], float(m.logprob), tol):
                 raise Violation("logprob" + ("_ne" if ne else ""),
                                 f"{m.key}: reported log-probability {float(m.logprob)}, the model assigns {r['lp']} to this path prefix "
-                                f"(transition {r['tr']}, emission {em})")
+                                f"(transition {r['tr']}, emission {em})", index=k, reported=float(m.logprob), model=r["lp"])
             if r["length"] != m.length:
                 raise Violation("length", f"{m.key}: reported length {m.length}, path prefix has {r['length']} emitting states")
             if fam_dist and k:
